@@ -156,3 +156,98 @@ def kernel_bounds_bounded(p):
     finally:
         RM.trilinear, RM.z2s_kernel, TR.RKstep, TR.clip = saved
     return dict(cases=cases, failures=failures[:10], samples=samples, bound=f"{len(subgrids)} subgrids x 3 schemes x forward/reversed x 3 steps, 9 boundary positions, 6 depths")
+
+
+def lonlat_bounded(p):
+    """Bounded stand-in for C16: ll2xy(xy2ll(P)) == P on synthetic conformal grids and subgrids (Newton convergence
+    is numerical analysis, not proved); sample2D corpus incl. substitute value 0.0; release by lon/lat."""
+    from ladim.ROMS import Grid
+    from ladim.sample import sample2D
+
+    tier = p.get("tier", "quick")
+    cases, failures, samples = 0, [], []
+
+    def stereo(im, jm, dx_km, rot, xp, yp):
+        """Polar stereographic grid: lon/lat of grid index (i, j)."""
+        jj, ii = np.meshgrid(np.arange(jm), np.arange(im), indexing="ij")
+        x = (ii - xp) * dx_km
+        y = (jj - yp) * dx_km
+        r = np.hypot(x, y)
+        Rearth = 6371.0
+        lat = 90.0 - 2.0 * np.degrees(np.arctan(r / (2 * Rearth * (1 + np.sin(np.radians(60.0))) / 2)))
+        lon = rot + np.degrees(np.arctan2(x, -y))
+        return lon, lat
+
+    grids = [(40, 30, 20.0, 58.0, 20.0, 150.0), (120, 90, 4.0, 10.0, -50.0, 400.0)]
+    if tier == "thorough":
+        grids += [(400, 300, 4.0, 58.0, 150.0, 700.0), (60, 50, 10.0, -30.0, 30.0, 200.0)]
+    with Scratch() as d:
+        for gi, (im, jm, dxk, rot, xp, yp) in enumerate(grids):
+            lon, lat = stereo(im, jm, dxk, rot, xp, yp)
+            make_roms_file(d / f"g{gi}.nc", imax0=im, jmax0=jm, lon=lon, lat=lat, grid_only=True)
+            for sub in (None, (3, im - 4, 2, jm - 3), (im // 3, 2 * im // 3, jm // 4, 3 * jm // 4)):
+                g = Grid(d / f"g{gi}.nc", subgrid=sub)
+                xs = np.linspace(g.xmin + 0.5 + 1e-6, g.xmax - 0.5 - 1e-6, 9)
+                ys = np.linspace(g.ymin + 0.5 + 1e-6, g.ymax - 0.5 - 1e-6, 7)
+                X, Y = [a.ravel() for a in np.meshgrid(np.concatenate([xs, np.round(xs[1:-1])]), np.concatenate([ys, np.round(ys[1:-1])]))]
+                lo, la = g.xy2ll(X, Y)
+                # xy2ll is the bilinear interpolation of the global coordinate arrays (subgrid independent)
+                I, J = X.astype(int), Y.astype(int)
+                P, Q = X - I, Y - J
+                ref = (1 - P) * (1 - Q) * lon[J, I] + P * (1 - Q) * lon[J, I + 1] + (1 - P) * Q * lon[J + 1, I] + P * Q * lon[J + 1, I + 1]
+                cases += 1
+                if np.max(np.abs(lo - ref)) > 1e-9:
+                    failures.append(dict(grid=gi, subgrid=sub, what="xy2ll is not the bilinear interpolation of lon_rho at the position", err=float(np.max(np.abs(lo - ref)))))
+                try:
+                    X2, Y2 = g.ll2xy(lo, la)
+                except Exception as e:  # noqa: BLE001
+                    failures.append(dict(grid=gi, subgrid=sub, what=f"ll2xy raised {type(e).__name__}: {e}"))
+                    continue
+                err = float(max(np.max(np.abs(X2 - X)), np.max(np.abs(Y2 - Y))))
+                lo2, la2 = g.xy2ll(np.clip(X2, g.xmin, g.xmax - 1e-9), np.clip(Y2, g.ymin, g.ymax - 1e-9))
+                res = float(np.max((lo2 - lo) ** 2 + (la2 - la) ** 2))
+                cases += 1
+                # solver tolerance: squared lon/lat residual below 1e-7 deg^2; position within 0.05 cell
+                if not (res <= 1e-7 and err <= 0.05):
+                    failures.append(dict(grid=gi, subgrid=sub, what="ll2xy(xy2ll(P)) != P beyond the solver tolerance", max_position_error=err, max_sq_residual=res))
+        samples.append(dict(grid="polar stereographic 120x90, 4 km", subgrids=3, positions="9x7 lattice + cell centres"))
+    # sample2D corpus
+    rng = np.random.default_rng(p.get("seed", 0))
+    F = rng.normal(size=(6, 7))
+    M = (rng.random((6, 7)) > 0.3).astype(float)
+    X = np.array([-3.0, 0.0, 2.5, 5.999, 6.0, 3.3, 1.0])
+    Y = np.array([1.0, 0.0, 4.999, 2.0, 2.0, 5.0, -0.1])
+    outside = (X < 0) | (X >= 6) | (Y < 0) | (Y >= 5)
+    for ov in (0.0, -1.0, 1e30, 7.5):
+        for mask in (None, M):
+            cases += 1
+            r = sample2D(F, X, Y, mask=mask, undef_value=-99.0, outside_value=ov)
+            if not np.all(r[outside] == ov):
+                failures.append(dict(what="sample2D outside value not returned", outside_value=ov, got=r[outside].tolist()))
+            Xi, Yi = X[~outside], Y[~outside]
+            I, J = Xi.astype(int), Yi.astype(int)
+            Pp, Qq = Xi - I, Yi - J
+            W = [(1 - Pp) * (1 - Qq), (1 - Pp) * Qq, Pp * (1 - Qq), Pp * Qq]
+            C = [(J, I), (J + 1, I), (J, I + 1), (J + 1, I + 1)]
+            if mask is not None:
+                W = [w * mask[c] for w, c in zip(W, C)]
+            sw = sum(W)
+            exp = np.where(sw == 0, -99.0, sum(w * F[c] for w, c in zip(W, C)) / np.where(sw == 0, 1.0, sw))
+            if np.max(np.abs(r[~outside] - exp)) > 1e-12:
+                failures.append(dict(what="sample2D inside value", mask=mask is not None))
+    try:
+        sample2D(F, X, Y)
+        failures.append(dict(what="sample2D outside_value None did not raise"))
+    except ValueError:
+        pass
+    cases += 1
+    return dict(cases=cases, failures=failures[:10], samples=samples, bound=f"{len(grids)} polar-stereographic grids x 3 subgrids x ~130 positions, solver tolerance (squared lon/lat residual 1e-7 deg^2, position 0.05 cell); sample2D corpus with substitute values 0.0, -1, 1e30, 7.5")
+
+
+def sample2d_replay(p):
+    from ladim.sample import sample2D
+
+    F = np.arange(12.0).reshape(3, 4) + 5.0
+    ov = p.get("outside_value", 0.0)
+    r = sample2D(F, np.array([-3.0, 1.5]), np.array([1.0, 1.0]), outside_value=ov)
+    return dict(reproduced=bool(r[0] != ov), observed=float(r[0]), expected=ov)
